@@ -375,6 +375,16 @@ func c10Senders(c *Ctx) {
 		}
 		set := c.Calls(add, Call("message.Message).SetAddrs", Op("param", ""), Extract("0", Is(c.E(cs.In.(*ssa.Call))))))
 		okSet := len(set) == 1
+		// no element of the converted list is replaced before it is set
+		instrs(add, func(in ssa.Instruction) {
+			if st, ok := in.(*ssa.Store); ok {
+				if a := c.E(st.Addr); a.Op == "index" {
+					if _, m := Match(Extract("0", Is(c.E(cs.In.(*ssa.Call)))), a.Args[0]); m {
+						okSet = false
+					}
+				}
+			}
+		})
 		if okSet {
 			_, okSet = c.Guarded(set[0].In, EqNil(Extract("1", Is(c.E(cs.In.(*ssa.Call))))), true)
 		}
@@ -520,6 +530,28 @@ func c10Senders(c *Ctx) {
 	} else {
 		c.Unk("C10.B5-senders", "ingest/client.(*Client).Announce", token.NoPos, "not found")
 	}
+	// on the receiving side, what is delivered for a pubsub message is decoded from that message: the addresses of an
+	// announcement are this message's (or none), never a value kept from the previous message
+	if w := c16Watcher(c, "announce"); w != nil {
+		nD := 0
+		for _, cs := range c.Calls(w, c.RoleCall("announce.deliver")) {
+			am := cs.X.Args[2]
+			if am.Op != "complit" {
+				continue
+			}
+			for _, fi := range am.Args {
+				if fi.Name != "Addrs" || len(fi.Args) != 1 {
+					continue
+				}
+				nD++
+				c.Check(!loopCarried(fi.Args[0], 0), "C10.B7-receiver-decodes-this-message", c.short(w.String())+" › delivered addresses", cs.In.Pos(), "the addresses delivered are decoded from the message at hand (or absent)", "the addresses delivered can be a value carried over from the previous message (a message without addresses is delivered with the previous one's): the receiver does not decode what the sender put on the wire")
+			}
+		}
+		if nD == 0 {
+			c.Unk("C10.B7-receiver-decodes-this-message", c.short(w.String()), w.Pos(), "delivery of a decoded announcement not found")
+		}
+	}
+	c.Floor("C10.B7-receiver-decodes-this-message", 1)
 	c.Floor("C10.B5-senders", 7)
 }
 
